@@ -253,6 +253,16 @@ func (vc *VC) useCloFn() {
 	vc.specDecls = append(vc.specDecls, decl)
 }
 
+func (vc *VC) useChanCap() {
+	decl := "(declare-fun chan_cap (Int) Int)"
+	for _, l := range vc.specDecls {
+		if l == decl {
+			return
+		}
+	}
+	vc.specDecls = append(vc.specDecls, decl)
+}
+
 // useSpecFun declares a spec function (and, for transparent non-recursive ones, its definition)
 func (vc *VC) useSpecFun(name string) {
 	if vc.specUsed == nil {
